@@ -395,8 +395,13 @@ def stats_list(solver):
     return [int(d[k]) for k in STAT_LABELS]
 
 
+IMPL_HANGS = [0]  # in-process calls of the real solver that ran into their watchdog; after three, further calls are not attempted
+
+
 def impl_solve(prob, cfg, limit=None):
     """the real solve() generator; returns ('ok', sols, stats) or ('err', kind, None)"""
+    if IMPL_HANGS[0] >= 3:
+        return "hang", "not attempted: three earlier calls of the real solver did not return", None
     try:
         with guard(int(os.environ.get("NUCS_VERIF_CALL_TIMEOUT", "15"))):
             s = cfg.solver(prob.build())
@@ -413,10 +418,13 @@ def impl_solve(prob, cfg, limit=None):
     except ValueError as e:
         return "err", "refused", None
     except Hang as e:
+        IMPL_HANGS[0] += 1
         return "hang", str(e), None
 
 
 def impl_optimize(prob, cfg, v, minimize):
+    if IMPL_HANGS[0] >= 3:
+        return "hang", "not attempted: three earlier calls of the real solver did not return", None
     try:
         with guard(int(os.environ.get("NUCS_VERIF_CALL_TIMEOUT", "15"))):
             s = cfg.solver(prob.build())
@@ -427,6 +435,7 @@ def impl_optimize(prob, cfg, v, minimize):
     except OverflowError:
         return "err", "oob", None
     except Hang as e:
+        IMPL_HANGS[0] += 1
         return "hang", str(e), None
 
 
